@@ -11,6 +11,8 @@ rep("""    pub fn alloc_inner(&mut self, order: u8) -> (r: Option<u32>)
         requires old(self).wf2(),
         ensures final(self).wf2(), final(self).same_shape(*old(self)),
             r matches Some(p) ==> old(self).st().cov(order as int, p as int) && !final(self).st().cov(order as int, p as int),
+            r matches Some(p) ==> forall|k: int, y: int| 0 <= k <= order ==> #[trigger] final(self).st().cov(k, y)
+                    == (old(self).st().cov(k, y) && !is_anc(k, y, order as int, p as int)),
             r is None ==> forall|k: int, q: int| order <= k ==> !#[trigger] old(self).st().a(k, q),""")
 rep("""        if let Some(x) = allocator.alloc() {
             Some(x)""","""        if let Some(x) = allocator.alloc() {
